@@ -116,7 +116,7 @@ class Sym:
     def _cid(self, bb, c):
         if bb in self._callid:
             return self._callid[bb]
-        gk = (self.fn.key if self.fn is not None else None, id(self.body) if self.body is not getattr(self.fn, "body", None) else 0, bb)
+        gk = (id(self.fn) if self.fn is not None else None, id(self.body) if self.body is not getattr(self.fn, "body", None) else 0, bb)
         if gk[1] == 0 and gk in _CALLKEYS:
             self._callid[bb] = _CALLKEYS[gk]
             return self._callid[bb]
